@@ -351,6 +351,23 @@ def compat_cli_tasks(tier):
         for cat in ('kex', 'key', 'enc', 'mac'):
             for perm in itertools.permutations(base[cat]):
                 out.append((si, dict(base, **{cat: list(perm)})))
+    # every pair and triple (quick: every 3rd triple) of the database's distinct version-information lists, offered by one server next to a
+    # neutral base: each product's range and its wording come out of that product's own versions, whatever the other product's look like
+    vl = version_lists()
+    bases = {'modern': dict(kex=['curve25519-sha256'], key=['ssh-ed25519'], enc=['aes256-ctr'], mac=['hmac-sha2-256']),
+             'legacy': dict(kex=['diffie-hellman-group1-sha1'], key=['ssh-rsa'], enc=['3des-cbc'], mac=['hmac-sha1']),
+             'none': dict(kex=[], key=[], enc=[], mac=[])}
+    combos = list(itertools.combinations(range(len(vl)), 2))
+    tri = list(itertools.combinations(range(len(vl)), 3))
+    for bname, base in sorted(bases.items()):
+        sel = combos + (tri if tier != 'quick' else (tri[::2] if bname == 'legacy' else tri[::7]))
+        for combo in sel:
+            lists = {c: list(v) for c, v in base.items()}
+            for i in combo:
+                cat, name, _v = vl[i]
+                if name not in lists[cat]:
+                    lists[cat].append(name)
+            out.append((100 + len(combo), lists))
     return out
 
 
